@@ -168,7 +168,9 @@ Inductive label :=
 | LTick (d : Z)
 | LStoreDel (n : name)               (* environment: storage cleaner *)
 | LStorePut (n : name) (c : cert)    (* environment: another instance stores a bundle *)
-| LEvict (n : name) (c : cert).      (* environment: cache eviction / removal *)
+| LEvict (n : name) (c : cert)       (* environment: cache eviction / removal *)
+| LCacheSet (n : name) (c : cert).   (* environment: the cached certificate of generation [gen c] changes state
+                                        (its OCSP status becomes Revoked, it ages) *)
 
 Definition guard (b : bool) (s : option state) : option state := if b then s else None.
 
@@ -313,6 +315,7 @@ Definition step (s : state) (l : label) : option state :=
   | LStoreDel n => Some (set_store s n None)
   | LStorePut n c => Some (set_store s n (Some c))
   | LEvict n c => Some (set_cache s n (cache_del c (cache s n)))
+  | LCacheSet n c => Some (set_cache s n (map (fun x => if cert_eqb x c then c else x) (cache s n)))
   end.
 
 Fixpoint run (s : state) (ls : list label) : option state :=
